@@ -9,6 +9,7 @@ From PV.Base Require Import Classes AlgLemmas.
 From PV.DSL Require Import Syntax Sem.
 From PV.Gen Require Import Algorithms_gen.
 From PV.Alg Require Import MainAlgebra MainLift Unique.
+From PV.Alg Require MainLiftTB.
 Import ListNotations.
 Open Scope string_scope.
 
@@ -71,3 +72,45 @@ Proof.
   - apply (gauge_general _ _ _ Hsol Hw).
 Qed.
 End LeastAction.
+
+(** Two-block optimisation (two_block_optimized = True: exactly two blocks, no
+    fully_diagonalize). [wiring_tb] adds what this wiring guarantees: the selection is the
+    block-diagonal part, every block is flagged commuting, and the parity laws of a 2x2 block
+    structure (proved for the series instance in Series/Wiring.v under [blk p < 2]). *)
+Section CorrectTB.
+Context {T : Type} `{Rg : Ring T} {BA : BlockAlg T}.
+
+Record wiring_tb (rflag : string -> T -> T) (fenv : string -> list T -> T) (H : T) : Prop := {
+  wt_base : wiring rflag fenv H;
+  wt_Sel_Dg : forall x, Sel x == Dg x;
+  wt_Rw_Dg : forall x, Rw (Dg x) == Dg x;
+  wt_odd_odd : forall x y, Dg (Od x * Od y) == Od x * Od y;
+  wt_up_dg_up : forall x y, Up (Dg x * Up y) == Dg x * Up y;
+  wt_up_up_dg : forall x y, Up (Up x * Dg y) == Up x * Dg y;
+  wt_lo_dg_lo : forall x y, Lo (Dg x * Lo y) == Dg x * Lo y;
+  wt_lo_lo_dg : forall x y, Lo (Lo x * Dg y) == Lo x * Dg y
+}.
+
+Variable rflag : string -> T -> T.
+Variable fenv : string -> list T -> T.
+Variable sol : string -> T.
+Hypothesis Hsol : solution (MainLift.gflag_of true) rflag fenv sol main_alg.
+Hypothesis Hw : wiring_tb rflag fenv (sol "H").
+
+Ltac use L := destruct Hw as [Hb ? ? ? ? ? ? ?]; destruct Hb; eapply L; try eassumption; try reflexivity.
+
+Theorem kept_tb : Sel (sol "U†" * sol "H" * sol "U") == sol "H_tilde".
+Proof. use (@MainLiftTB.tb_kept T _ _ _ _ _ _ _ _ _ _ true rflag fenv sol). Qed.
+Theorem eliminated_tb : Rp (sol "U†" * sol "H" * sol "U") == 0.
+Proof. use (@MainLiftTB.tb_eliminated T _ _ _ _ _ _ _ _ _ _ true rflag fenv sol). Qed.
+Theorem unitary_l_tb : sol "U†" * sol "U" == 1.
+Proof. use (@MainLiftTB.tb_unitary_l T _ _ _ _ _ _ _ _ _ _ true rflag fenv sol). Qed.
+Theorem unitary_r_tb : sol "U" * sol "U†" == 1.
+Proof. use (@MainLiftTB.tb_unitary_r T _ _ _ _ _ _ _ _ _ _ true rflag fenv sol). Qed.
+Theorem adjoint_tb : adj (sol "U") == sol "U†".
+Proof. use (@MainLiftTB.tb_adjoint T _ _ _ _ _ _ _ _ _ _ true rflag fenv sol). Qed.
+Theorem Ht_herm_tb : adj (sol "H_tilde") == sol "H_tilde".
+Proof. use (@MainLiftTB.tb_Ht_herm T _ _ _ _ _ _ _ _ _ _ true rflag fenv sol). Qed.
+Theorem gauge_tb : Sel (half ((sol "U" - 1) - adj (sol "U" - 1))) == 0.
+Proof. use (@MainLiftTB.tb_gauge T _ _ _ _ _ _ _ _ _ _ true rflag fenv sol). Qed.
+End CorrectTB.
